@@ -11,6 +11,7 @@ import (
 	"time"
 
 	"github.com/criyle/go-sandbox/container"
+	"github.com/criyle/go-sandbox/pkg/mount"
 )
 
 func init() {
@@ -26,6 +27,11 @@ func c16Controller(args []string) {
 		// a traced program with signal-ignoring descendants
 		runPtraceProbe(RunSpec{Script: "ignore 15;ignore 1;fork;ignore 15;fork;sleep 30000;endfork;sleep 30000;endfork;sleep 30000;exit 0", Filter: tracingFilter(), Timeout: 40 * time.Second,
 			SyncFunc: func(pid int) error { fmt.Printf("PROG %d\n", pid); os.Stdout.Sync(); return nil }})
+	case "build-initcmd":
+		// the init runs a long init command during conf: it is not reading its socket meanwhile
+		newEnv(container.Builder{InitCommand: []string{"/bin/sleep", "30"},
+			Mounts: mount.NewDefaultBuilder().WithTmpfs("w", "").WithTmpfs("tmp", "").WithBind("/dev/null", "dev/null", false).FilterNotExist().Mounts})
+		time.Sleep(40 * time.Second)
 	default:
 		before := childPids()
 		env, err := newEnv(container.Builder{})
@@ -120,6 +126,7 @@ func runC16(res *Result, d *Driver, tier string, seed uint64) {
 	for _, m := range []string{"idle", "execve", "execve-syncafter", "fileops", "ptrace"} {
 		cases = append(cases, kc{m, "random"})
 	}
+	cases = append(cases, kc{"build-initcmd", "random"})
 	for _, p := range []string{"host.execve.sent", "host.waitForDone"} {
 		cases = append(cases, kc{"execve", p}, kc{"execve-syncafter", p})
 	}
@@ -173,7 +180,20 @@ func runC16(res *Result, d *Driver, tier string, seed uint64) {
 						}
 					}
 				case <-randomKill:
-					if c.point == "random" && (initPid > 0 || progPid > 0 || c.mode == "ptrace") {
+					if c.mode == "build-initcmd" {
+						// Build has not returned: find the init among the controller's children
+						time.Sleep(150 * time.Millisecond)
+						for _, p := range childrenOf(cmd.Process.Pid) {
+							if l, e := os.Readlink(fmt.Sprintf("/proc/%d/ns/pid", p)); e == nil {
+								self, _ := os.Readlink("/proc/self/ns/pid")
+								if l != self {
+									initPid, ns = p, l
+								}
+							}
+						}
+						cmd.Process.Kill()
+						killed = true
+					} else if c.point == "random" && (initPid > 0 || progPid > 0 || c.mode == "ptrace") {
 						cmd.Process.Kill()
 						killed = true
 					} else if c.point == "random" {
